@@ -101,9 +101,54 @@ def truth(e, atoms):
     return evaluate(e, cols, ones), ones
 
 
+PIECE_T = "cozy_chess_types::piece::Piece"
+
+
+def pre(e):
+    """the square of side c's king, as a set, is colours(c) & kings (exactly one king per side on every board the
+    library hands out, C06): written so, `occupied ^ bb(king)`, `occupied - bb(king)` and
+    `occupied - colored_pieces(c, King)` are the same expression"""
+    if not isinstance(e, tuple) or not e:
+        return e
+    if e[0] == "bbof" and isinstance(e[1], tuple) and e[1] and e[1][0] == "king" and len(e[1]) == 3:
+        S, c = e[1][1], e[1][2]
+        return ("and", ("get", "colors", S, c), ("get", "pieces", S, ("enum", PIECE_T, "King")))
+    if e[0] == "bool":
+        return e
+    return tuple(pre(x) if isinstance(x, tuple) else x for x in e)
+
+
+def builtin_care(atoms, cols, ones):
+    """rows of the truth table that respect what is known about the atoms themselves: the square of a side's king is
+    one of that side's pieces, is a king, and is occupied (every accepted board has exactly one king per side, C06)"""
+    care = ones
+    for a in atoms:
+        if isinstance(a, tuple) and len(a) == 4 and a[0] == "get" and a[1] == "colors" and not (isinstance(a[3], tuple) and a[3] and a[3][0] == "enum"):
+            both = [x for x in atoms if isinstance(x, tuple) and len(x) == 4 and x[0] == "get" and x[1] == "colors" and x[2] == a[2]
+                    and isinstance(x[3], tuple) and x[3] and x[3][0] == "enum"]
+            if len(both) == 2:
+                care &= ones & (~cols[a] | cols[both[0]] | cols[both[1]])
+        if isinstance(a, tuple) and a and a[0] == "bbof" and isinstance(a[1], tuple) and a[1] and a[1][0] == "king":
+            S, c = a[1][1], a[1][2]
+            ka = cols[a]
+            own = ("get", "colors", S, c)
+            if own in cols:
+                care &= ones & (~ka | cols[own])
+            kp = [x for x in atoms if isinstance(x, tuple) and len(x) == 4 and x[0] == "get" and x[1] == "pieces" and x[2] == S
+                  and isinstance(x[3], tuple) and x[3][0] == "enum" and x[3][2] == "King"]
+            for x in kp:
+                care &= ones & (~ka | cols[x])
+            both = [x for x in atoms if isinstance(x, tuple) and len(x) == 4 and x[0] == "get" and x[1] == "colors" and x[2] == S
+                    and isinstance(x[3], tuple) and x[3][0] == "enum"]
+            if len(both) == 2:
+                care &= ones & (~ka | cols[both[0]] | cols[both[1]])
+    return care
+
+
 def canon(e):
     """canonical form ('bool', atoms, table) with irrelevant atoms removed; atoms themselves
     are returned unchanged (after normalising nested set arguments)"""
+    e = pre(e)
     if not is_setop(e):
         if e[0] == "bbconst":
             if e[1] == 0:
@@ -120,6 +165,9 @@ def canon(e):
     collect_atoms(e, atoms)
     atoms.sort(key=repr)
     tt, ones = truth(e, atoms)
+    if any(isinstance(a, tuple) and a and a[0] in ("bbof", "get") for a in atoms):
+        cols_, ones_ = columns(atoms)
+        tt &= builtin_care(atoms, cols_, ones_)
     # drop atoms the function does not depend on
     changed = True
     while changed:
@@ -157,6 +205,7 @@ def project_out(tt, n, i):
 
 def equivalent(a, b, axioms=()):
     """are set expressions a and b equal for every valuation of the atoms satisfying the axioms?"""
+    a, b = pre(a), pre(b)
     atoms = []
     collect_atoms(a, atoms)
     collect_atoms(b, atoms)
@@ -169,6 +218,9 @@ def equivalent(a, b, axioms=()):
     for ax in axioms:
         t, _ = truth(ax, atoms)
         care &= t
+    if any(isinstance(x, tuple) and x and x[0] in ("bbof", "get") for x in atoms):
+        cols_, ones_ = columns(atoms)
+        care &= builtin_care(atoms, cols_, ones_)
     return ((ta ^ tb) & care) == 0
 
 
@@ -291,8 +343,8 @@ def membership3(target, facts):
     def expr(x):
         from .rules.movegen import bool_to_expr
         return bool_to_expr(x) if isinstance(x, tuple) and x and x[0] == "bool" else x
-    target = expr(target)
-    facts = [(expr(s), v) for s, v in facts]
+    target = pre(expr(target))
+    facts = [(pre(expr(s)), v) for s, v in facts]
     atoms = []
     collect_atoms(target, atoms)
     for s, _ in facts:
